@@ -533,7 +533,8 @@ Proof.
   cbn [renew_after]. rewrite (IH lji (S i)). f_equal.
   destruct (stage_kinds s s' Hs) as (Hp & _ & _ & Hd). rewrite Hp, Hd.
   destruct Hl as [|n n' r r' Hn _]; [reflexivity|].
-  destruct (stage_kinds n n' Hn) as (Hp' & _ & Hr' & Hd'). rewrite Hp', Hd', Hr'. reflexivity.
+  destruct (stage_kinds n n' Hn) as (Hp' & _ & Hr' & Hd'). rewrite Hp', Hd', Hr'.
+  destruct s, s'; try contradiction; reflexivity.   (* the line_format clause of renew_after (repair 42297ce, b4-lf) *)
 Qed.
 
 Lemma plan_ts_variant ms ms' ppl ppl' : Forall2 matcher_variant ms ms' -> Forall2 stage_variant ppl ppl' -> forall simple,
